@@ -196,7 +196,7 @@ func init() {
 	reg("(*sync.RWMutex).RUnlock", func(fr *frame, a []value) value { fr.ex().runlock(a[0].(*value)); return nil })
 	reg("(*sync.WaitGroup).Add", func(fr *frame, a []value) value {
 		ex := fr.ex()
-		ex.yield()
+		ex.yieldK(true, ex.cfg.bounds["preempt_sync"] == 1)
 		w := ex.wg(a[0].(*value))
 		w.n += asInt64(a[1])
 		if w.n < 0 {
@@ -206,7 +206,7 @@ func init() {
 	})
 	reg("(*sync.WaitGroup).Done", func(fr *frame, a []value) value {
 		ex := fr.ex()
-		ex.yield()
+		ex.yieldK(true, ex.cfg.bounds["preempt_sync"] == 1)
 		w := ex.wg(a[0].(*value))
 		w.n--
 		if w.n < 0 {
@@ -216,7 +216,7 @@ func init() {
 	})
 	reg("(*sync.WaitGroup).Wait", func(fr *frame, a []value) value {
 		ex := fr.ex()
-		ex.yield()
+		ex.yieldK(false, false)
 		w := ex.wg(a[0].(*value))
 		ex.block(func() bool { return w.n == 0 }, "WaitGroup.Wait")
 		return nil
@@ -271,7 +271,7 @@ func init() {
 	// ---------------- sync/atomic ----------------
 	for _, ty := range []string{"Int32", "Int64", "Uint32", "Uint64"} {
 		ty := ty
-		reg("sync/atomic.Load"+ty, func(fr *frame, a []value) value { fr.ex().yield(); return *(a[0].(*value)) })
+		reg("sync/atomic.Load"+ty, func(fr *frame, a []value) value { fr.ex().yieldK(false, true); return *(a[0].(*value)) })
 		reg("sync/atomic.Store"+ty, func(fr *frame, a []value) value { fr.ex().yield(); *(a[0].(*value)) = a[1]; return nil })
 		reg("sync/atomic.Add"+ty, func(fr *frame, a []value) value {
 			fr.ex().yield()
@@ -540,6 +540,29 @@ func init() {
 	reg("verifBool", func(fr *frame, a []value) value { return fr.ex().fresh(name(fr, a[0]), sBool, 0) })
 	reg("verifString", func(fr *frame, a []value) value { return fr.ex().fresh(name(fr, a[0]), sStr, 0) })
 	reg("verifFloat64", func(fr *frame, a []value) value { return fr.ex().fresh(name(fr, a[0]), sFP, 0) })
+	reg("verifAnd", func(fr *frame, a []value) value { return andV(a[0], a[1]) })
+	reg("verifOr", func(fr *frame, a []value) value { return orV(a[0], a[1]) })
+	reg("verifNot", func(fr *frame, a []value) value { return notV(a[0]) })
+	reg("verifImplies", func(fr *frame, a []value) value { return orV(notV(a[0]), a[1]) })
+	reg("verifIte", func(fr *frame, a []value) value {
+		switch c := a[0].(type) {
+		case bool:
+			if c {
+				return a[1]
+			}
+			return a[2]
+		case *sym:
+			return mkIte(c, litOf(a[1]), litOf(a[2]))
+		}
+		panic("verifIte")
+	})
+	reg("verifInt64Range", func(fr *frame, a []value) value {
+		ex := fr.ex()
+		v := ex.fresh(name(fr, a[0]), sBV, 64)
+		ex.addPC(symBinop(token.GEQ, int64T(), v, a[1]).(*sym))
+		ex.addPC(symBinop(token.LSS, int64T(), v, a[2]).(*sym))
+		return v
+	})
 	reg("verifChoose", func(fr *frame, a []value) value {
 		n := int(asInt64(a[1]))
 		return fr.ex().choose(name(fr, a[0]), n)
@@ -547,6 +570,7 @@ func init() {
 	reg("verifAssume", func(fr *frame, a []value) value { fr.ex().assume(a[0], "assume@"+callerPos(fr)); return nil })
 	reg("verifAssert", func(fr *frame, a []value) value { fr.ex().assert(a[0], name(fr, a[1])); return nil })
 	reg("verifFail", func(fr *frame, a []value) value { fr.ex().assert(false, name(fr, a[0])); return nil })
+	reg("verifUnsupported", func(fr *frame, a []value) value { panic(unsupported("harness: " + name(fr, a[0]))) })
 	reg("verifReach", func(fr *frame, a []value) value { fr.ex().reach[name(fr, a[0])] = true; return nil })
 	reg("verifNote", func(fr *frame, a []value) value { fr.ex().notes[name(fr, a[0])] = name(fr, a[1]); return nil })
 	reg("verifEvent", func(fr *frame, a []value) value {
@@ -703,6 +727,12 @@ func init() {
 		}
 		return nil
 	})
+	// static facts read from SSA: which global another global is initialised from, and the value of a
+	// bool field of the struct literal a global is built from (package initialisers are not executed)
+	reg("verifGlobalInitSource", func(fr *frame, a []value) value { return staticInitSource(fr.i.prog, name(fr, a[0])) })
+	reg("verifGlobalLiteralBool", func(fr *frame, a []value) value {
+		return staticLiteralBool(fr.i.prog, name(fr, a[0]), name(fr, a[1]))
+	})
 	reg("verifPermuteMaps", func(fr *frame, a []value) value { fr.ex().permute = fr.ex().truth(a[0]); return nil })
 }
 
@@ -711,4 +741,109 @@ func callerPos(fr *frame) string {
 		return fr.caller.fn.Name()
 	}
 	return "?"
+}
+
+func findGlobal(prog *ssa.Program, full string) (*ssa.Global, *ssa.Function) {
+	k := strings.LastIndex(full, ".")
+	if k < 0 {
+		return nil, nil
+	}
+	pkg := prog.ImportedPackage(full[:k])
+	if pkg == nil {
+		return nil, nil
+	}
+	g, _ := pkg.Members[full[k+1:]].(*ssa.Global)
+	return g, pkg.Func("init")
+}
+
+func storeToGlobal(g *ssa.Global, init *ssa.Function) ssa.Value {
+	if g == nil || init == nil {
+		return nil
+	}
+	var val ssa.Value
+	for _, b := range init.Blocks {
+		for _, in := range b.Instrs {
+			if st, ok := in.(*ssa.Store); ok && st.Addr == g {
+				val = st.Val
+			}
+		}
+	}
+	return val
+}
+
+// staticInitSource: "pkg.X" if global `full` is initialised by a plain load of global X.
+func staticInitSource(prog *ssa.Program, full string) string {
+	g, init := findGlobal(prog, full)
+	v := storeToGlobal(g, init)
+	for depth := 0; v != nil && depth < 8; depth++ {
+		switch x := v.(type) {
+		case *ssa.UnOp:
+			if gg, ok := x.X.(*ssa.Global); ok {
+				return gg.String()
+			}
+			v = x.X
+		case *ssa.MakeInterface:
+			v = x.X
+		case *ssa.ChangeInterface:
+			v = x.X
+		case *ssa.ChangeType:
+			v = x.X
+		default:
+			return ""
+		}
+	}
+	return ""
+}
+
+// staticLiteralBool: value of bool field `field` in the struct literal from which global `full` is
+// computed (directly or through a method call on the literal): 1 true, 0 false/unset, -1 unknown.
+func staticLiteralBool(prog *ssa.Program, full, field string) int {
+	g, init := findGlobal(prog, full)
+	v := storeToGlobal(g, init)
+	for depth := 0; v != nil && depth < 8; depth++ {
+		switch x := v.(type) {
+		case *ssa.Call:
+			if len(x.Call.Args) == 0 {
+				return -1
+			}
+			v = x.Call.Args[0]
+		case *ssa.MakeInterface:
+			v = x.X
+		case *ssa.UnOp:
+			al, ok := x.X.(*ssa.Alloc)
+			if !ok {
+				return -1
+			}
+			res := 0
+			for _, b := range init.Blocks {
+				for _, in := range b.Instrs {
+					st, ok := in.(*ssa.Store)
+					if !ok {
+						continue
+					}
+					fa, ok := st.Addr.(*ssa.FieldAddr)
+					if !ok || fa.X != al {
+						continue
+					}
+					stt := mustDeref(al.Type()).Underlying().(*types.Struct)
+					if stt.Field(fa.Field).Name() != field {
+						continue
+					}
+					c, ok := st.Val.(*ssa.Const)
+					if !ok {
+						return -1
+					}
+					if constValue(c) == true {
+						res = 1
+					} else {
+						res = 0
+					}
+				}
+			}
+			return res
+		default:
+			return -1
+		}
+	}
+	return -1
 }
